@@ -103,6 +103,11 @@ def faults_of(base):
 
 NEST_HEAD = '<definitions xmlns="https://www.omg.org/spec/DMN/20191111/MODEL/" namespace="n" name="m">'
 NEST_KINDS = ("context", "itemComponent", "functionDefinition", "invocation", "unknown-element", "list-literal", "parentheses")
+# valid models whose only peculiarity is the size / shape of the requirement graph or of the item-definition reference graph:
+# chains n long, and lattices of n layers x 4 elements in which every element requires (refers to) every element of the next layer
+# (4^(n-1) paths over 4n elements: anything that walks paths instead of elements does not end)
+GRAPH_KINDS = ("decision-chain", "bkm-chain", "itemdef-chain", "decision-lattice", "itemdef-lattice", "bkm-lattice")
+LATTICE_WIDTH = 4
 
 
 def nested_model(kind, n):
@@ -124,6 +129,51 @@ def nested_model(kind, n):
         body = dec % ("", lit % ("[" * n + "1" + "]" * n))
     elif kind == "parentheses":
         body = dec % ("", lit % ("(" * n + "1" + ")" * n))
+    elif kind == "decision-chain":
+        body = "".join('<decision name="d%d" id="d%d"><variable name="d%d"/>%s%s</decision>' % (
+            i, i, i, '<informationRequirement><requiredDecision href="#d%d"/></informationRequirement>' % (i + 1) if i + 1 < n else "",
+            lit % ("d%d + 1" % (i + 1) if i + 1 < n else "1")) for i in range(n))
+    elif kind == "bkm-chain":
+        body = "".join('<businessKnowledgeModel name="b%d" id="b%d"><variable name="b%d"/><encapsulatedLogic><formalParameter name="p"/>%s'
+                       '</encapsulatedLogic>%s</businessKnowledgeModel>' % (
+                           i, i, i, lit % ("b%d(p) + 1" % (i + 1) if i + 1 < n else "p"),
+                           '<knowledgeRequirement><requiredKnowledge href="#b%d"/></knowledgeRequirement>' % (i + 1) if i + 1 < n else "")
+                       for i in range(n))
+        body += ('<decision name="d" id="d"><variable name="d"/><knowledgeRequirement><requiredKnowledge href="#b0"/></knowledgeRequirement>%s</decision>'
+                 % (lit % "b0(1)"))
+    elif kind == "itemdef-chain":
+        body = "".join('<itemDefinition name="t%d"><typeRef>%s</typeRef></itemDefinition>' % (i, "t%d" % (i + 1) if i + 1 < n else "number")
+                       for i in range(n)) + dec % (' typeRef="t0"', lit % "1")
+    elif kind == "decision-lattice":
+        w = LATTICE_WIDTH
+        out = []
+        for i in range(n):
+            for j in range(w):
+                req = "".join('<informationRequirement><requiredDecision href="#d%d_%d"/></informationRequirement>' % (i + 1, k) for k in range(w)) if i + 1 < n else ""
+                text = " + ".join("d%d_%d" % (i + 1, k) for k in range(w)) if i + 1 < n else "1"
+                out.append('<decision name="d%d_%d" id="d%d_%d"><variable name="d%d_%d"/>%s%s</decision>' % (i, j, i, j, i, j, req, lit % text))
+        body = "".join(out)
+    elif kind == "bkm-lattice":
+        w = LATTICE_WIDTH
+        out = []
+        for i in range(n):
+            for j in range(w):
+                req = "".join('<knowledgeRequirement><requiredKnowledge href="#b%d_%d"/></knowledgeRequirement>' % (i + 1, k) for k in range(w)) if i + 1 < n else ""
+                out.append('<businessKnowledgeModel name="b%d_%d" id="b%d_%d"><variable name="b%d_%d"/><encapsulatedLogic><formalParameter name="p"/>%s'
+                           '</encapsulatedLogic>%s</businessKnowledgeModel>' % (i, j, i, j, i, j, lit % "p", req))
+        body = "".join(out) + ('<decision name="d" id="d"><variable name="d"/><knowledgeRequirement><requiredKnowledge href="#b0_0"/></knowledgeRequirement>%s</decision>'
+                               % (lit % "b0_0(1)"))
+    elif kind == "itemdef-lattice":
+        w = LATTICE_WIDTH
+        out = []
+        for i in range(n):
+            for j in range(w):
+                if i + 1 < n:
+                    comps = "".join('<itemComponent name="c%d"><typeRef>t%d_%d</typeRef></itemComponent>' % (k, i + 1, k) for k in range(w))
+                    out.append('<itemDefinition name="t%d_%d">%s</itemDefinition>' % (i, j, comps))
+                else:
+                    out.append('<itemDefinition name="t%d_%d"><typeRef>number</typeRef></itemDefinition>' % (i, j))
+        body = "".join(out) + dec % (' typeRef="t0_0"', lit % "null")
     else:
         raise ValueError(kind)
     return NEST_HEAD + body + "</definitions>"
@@ -180,6 +230,8 @@ def mutate(case):
         return MINIMAL[case["min"]], 0
     if "nest" in case:
         return nested_model(case["nest"], case["depth"]), 0
+    if "graph" in case:
+        return nested_model(case["graph"], case["depth"]), 0
     k = canon(case)
     m = _MUT.get(k)
     if m is None:
@@ -199,6 +251,9 @@ def reqs_probe(case):
         return [{"op": "probe", "xml": mutate(case)[0], "inputs": [[["i", {"n": "1"}], ["n", {"n": "5"}]]], "names": []}]
     if "nest" in case:
         return [{"op": "probe", "xml": mutate(case)[0], "inputs": [[["d", {"n": "1"}]], [["d", {"l": [None]}]]], "names": ["d"]}]
+    if "graph" in case:
+        # build_only: the model is loaded and its evaluator built, nothing is invoked; otherwise every invocable x (empty, one) input
+        return [{"op": "probe", "xml": mutate(case)[0], "inputs": [[["p", {"n": "1"}]]], "names": [], "build_only": bool(case.get("build_only"))}]
     doc, typical, names = load_base(case["base"])
     return [{"op": "probe", "xml": mutate(case)[0], "inputs": typical, "names": names}]
 
@@ -420,6 +475,9 @@ def describe(case):
         return "minimal model %s: %s" % (case["min"], MINIMAL[case["min"]])
     if "nest" in case:
         return "generated model with %s nested %d deep" % (case["nest"], case["depth"])
+    if "graph" in case:
+        return "generated valid model: %s of %d %s%s" % (case["graph"], case["depth"], "layers x %d" % LATTICE_WIDTH if "lattice" in case["graph"] else "elements",
+                                                       " (evaluator built, nothing invoked)" if case.get("build_only") else " (built, every invocable invoked)")
     doc = load_base(case["base"])[0]
     where = case["base"].get("file") or "generated model %s" % case["base"]["gen"]
     if "bytes" in case:
@@ -432,12 +490,25 @@ def confirm_budget(d):
     return min(10 * d.timeout, 200.0)
 
 
+def hang_signature(case):
+    if case.get("nest") == "list-literal":
+        return "C12/hang/nested-list"
+    if "graph" in case:
+        return "C12/exponential/%s/%s" % (case["graph"], "build" if case.get("build_only") else "invoke")
+    return "C12/hang"
+
+
 def judge_probe(ctx, case, resp, prof):
     r = resp[0]
     xml, applied = mutate(case)
     req = None
-    hang_sig = "C12/hang/nested-list" if case.get("nest") == "list-literal" else "C12/hang"
+    hang_sig = hang_signature(case)
     hang_reported = hang_sig in ctx.known_seen or any(v["signature"] == hang_sig for v in ctx.violations)
+    if "graph" in case and "lattice" in case["graph"] and ctx.is_known(hang_sig) and ("timeout" in r or r.get("died") == -6):
+        # an open finding: time (and for item definitions memory: the driver's address space is limited) grows 4x per layer. Not
+        # re-run with a 10x budget: one time-out (or the allocation failure) of the 24-layer model is the finding
+        return Fail(hang_sig, "[%s] %s\n  %s" % (prof, describe(case), "no answer within %.0f s" % ctx.driver(prof).timeout if "timeout" in r
+                                                  else "the process was ended by an allocation failure (16 GiB address space)"))
     if "timeout" in r and not hang_reported:
         # a time-out only counts after the request was re-run alone with a 10x budget (3 attempts); once a hang with the same
         # signature has been confirmed in this run, further time-outs are not re-confirmed (each confirmation costs 30x the budget)
@@ -466,6 +537,8 @@ def judge_probe(ctx, case, resp, prof):
         labels = ["minimal"]
     elif "nest" in case:
         labels = ["nesting", "nesting:%s" % case["nest"], "depth:%d" % case["depth"]]
+    elif "graph" in case:
+        labels = ["graph-shape", "graph:%s/%s" % (case["graph"], "build" if case.get("build_only") else "invoke"), "graph-size:%d" % case["depth"]]
     elif "bytes" in case:
         labels = ["bytes", "bytes:" + "+".join(sorted({o[0] for o in case["bytes"]}))]
     else:
@@ -474,7 +547,7 @@ def judge_probe(ctx, case, resp, prof):
         if applied < len(case["faults"]):
             labels.append("pair-overlap(outer-only)")
     labels.append("outcome:" + out)
-    labels.append("base:" + ("generated" if "nest" in case or "min" in case or "gen" in case["base"] else "file"))
+    labels.append("base:" + ("generated" if "nest" in case or "graph" in case or "min" in case or "gen" in case["base"] else "file"))
     nontrivial = xf.well_formed(xml)
     labels.append("well-formed" if nontrivial else "not-xml")
     if prof == "release" and len(case.get("faults", ())) == 1:
@@ -484,7 +557,7 @@ def judge_probe(ctx, case, resp, prof):
     if ctx.sample_slots.get(labels[0], 0) < 2 or out in ("panic", "died", "timeout"):
         sample = {"case": describe(case)[:300], "profile": prof, "outcome": out,
                   "answer": canon({k: v for k, v in r.items() if k != "results"})[:300]}
-    key = h(case) if "nest" in case or "min" in case else h([base_key(case["base"]), case.get("faults"), case.get("bytes")])
+    key = h(case) if "nest" in case or "graph" in case or "min" in case else h([base_key(case["base"]), case.get("faults"), case.get("bytes")])
     ctx.note(key=key, nontrivial=nontrivial, labels=labels, sample=sample)
     fail = verdict(ctx, case, r, out, xml, prof)
     if fail is not None and fail.sig not in ctx.open_sigs and any(v["signature"] == fail.sig for v in ctx.violations):
@@ -506,6 +579,9 @@ def verdict(ctx, case, r, out, xml, prof):
         if kinds and code in (-6, -11):
             return Fail("C12/stack-overflow/" + kinds[0], "[%s] %s\n  the process was killed by signal %s; the mutated model contains: %s" % (
                 prof, describe(case), code, ", ".join(kinds)), died=code, cycles=kinds)
+        if "graph" in case and code in (-6, -11) and "chain" in case["graph"] and case["depth"] >= 256:
+            return Fail("C12/stack-overflow/long-%s" % case["graph"], "[%s] %s (%d characters)\n  the process was killed by signal %s" % (
+                prof, describe(case), len(xml), code), died=code)
         if "nest" in case and code in (-6, -11) and case["depth"] >= 256:
             return Fail("C12/stack-overflow/deep-nesting", "[%s] %s (%d characters)\n  the process was killed by signal %s" % (
                 prof, describe(case), len(xml), code), died=code)
@@ -516,14 +592,16 @@ def verdict(ctx, case, r, out, xml, prof):
         return Fail("C12/abort", "[%s] %s\n  the process died (exit %s) and the mutated model contains no cyclic requirement" % (
             prof, describe(case), code), died=code)
     if out == "timeout":
-        return Fail("C12/hang/nested-list" if case.get("nest") == "list-literal" else "C12/hang",
+        return Fail(hang_signature(case),
                     "[%s] %s\n  no answer within %.0f s, three times, running alone (or like an already confirmed hang of this run)" % (
                         prof, describe(case), confirm_budget(ctx.driver(prof))))
     if out == "other":
         raise Inconclusive("driver answered %r for %s" % (r, describe(case)))
     if out == "built":
         names = r.get("invocables") or []
-        per = 2 if "min" in case else 3
+        per = 2 if "min" in case or "graph" in case else 3
+        if case.get("build_only"):
+            per = 0
         if not isinstance(r.get("results"), list) or len(r["results"]) != per * len(names):
             return Fail("C12/no-value", "[%s] %s\n  %d invocables x (1 + given) inputs but %r results" % (
                 prof, describe(case), len(names), len(r.get("results") or [])))
@@ -646,6 +724,22 @@ def plan(ctx):
     return sorted(chosen), sampled
 
 
+def graph_cases(ctx):
+    for kind in ("decision-chain", "bkm-chain", "itemdef-chain"):
+        for n in (16, 128, 1024):
+            yield {"graph": kind, "depth": n}
+    for kind in ("decision-lattice", "bkm-lattice", "itemdef-lattice"):
+        yield {"graph": kind, "depth": 6}
+    for n in (12, 24):
+        yield {"graph": "decision-lattice", "depth": n, "build_only": True}
+    if ctx.thorough():
+        # open findings (exponential in the number of layers / recursion as deep as the chain): shown, not searched further
+        yield {"graph": "decision-chain", "depth": 20000}
+        yield {"graph": "decision-lattice", "depth": 24}
+        yield {"graph": "bkm-lattice", "depth": 24, "build_only": True}
+        yield {"graph": "itemdef-lattice", "depth": 24, "build_only": True}
+
+
 def setup(ctx):
     ctx.rule = ("cases: the hand-minimised models of the findings, a nesting-depth grid, every shipped model unmutated, and: "
                 "a shipped .dmn file or a generated model + one structural fault (every class of oracles/xml_faults.py at every "
@@ -660,6 +754,7 @@ def setup(ctx):
     ctx.p_single = ctx.register(Part("single", None, reqs_probe, judge_probe, profile="both"))
     ctx.p_min = ctx.register(Part("minimal", None, reqs_probe, judge_probe, profile="both"))
     ctx.p_nest = ctx.register(Part("nesting", None, reqs_probe, judge_probe, profile="both"))
+    ctx.p_graph = ctx.register(Part("graph-shape", None, reqs_probe, judge_probe, profile="both"))
     ctx.p_pair = ctx.register(Part("pair", gen_pair(ctx), reqs_probe, judge_probe, profile="both"))
     ctx.p_bytes = ctx.register(Part("bytes", gen_bytes(ctx), reqs_probe, judge_probe, profile="both"))
     ctx.window = [{"gen": []}]   # replaced by run(); replay does not use it
@@ -708,6 +803,13 @@ def run(ctx):
     depths["list-literal"] = [4, 8, 16, 20, 48, 200]   # 48 and 200: regression cases of finding F10 (fixed by 26ec129 in /repo)
     ctx.enumerate(ctx.p_nest, ({"nest": k, "depth": n} for n in sorted({n for v in depths.values() for n in v}) for k in NEST_KINDS if n in depths[k]),
                   batch=1, name="nesting depth grid: %s x depths" % "/".join(NEST_KINDS), exhaustive=True)
+    if ctx.stop():
+        return
+    # requirement / reference graph shapes (valid models): chains and lattices. Lattices of 24 layers have 4^23 paths over 96 elements:
+    # loading and building must not depend on the number of paths. (Invoking does, see findings: the evaluator has no per-invocation
+    # memo; the deep lattices are therefore only built, the invoked ones are 6 layers deep.)
+    ctx.enumerate(ctx.p_graph, graph_cases(ctx), batch=1, name="requirement-graph shapes: chains x lengths, lattices x layers (built / invoked)",
+                  exhaustive=True)
     if ctx.stop():
         return
     # every shipped model as it is (a model that is shipped and cannot be loaded without a crash is a finding of its own)
